@@ -36,3 +36,18 @@ func (db *DBStore) VerifElementProof(leafIndex, numLeaves uint64) (proof [][32]b
 type errVerif struct{ v any }
 
 func (e errVerif) Error() string { return "panic" }
+
+// VerifCommitted returns a deep copy of the committed image of a MemDB (what a process that
+// discards the pending writes, or reopens the database, would find). Pending puts and deletes are
+// not part of it. The committed image may only change in Flush.
+func (db *MemDB) VerifCommitted() map[string]map[string][]byte {
+	out := make(map[string]map[string][]byte, len(db.buckets))
+	for name, b := range db.buckets {
+		m := make(map[string][]byte, len(b))
+		for k, v := range b {
+			m[k] = append([]byte(nil), v...)
+		}
+		out[name] = m
+	}
+	return out
+}
